@@ -29,7 +29,10 @@ META = {
             "which every word names direction, connection and offset; sideConn.Read is driven across message boundaries "
             "(several frames per message, zero-length messages and frames, a connection lost in the middle of a message - "
             "proved: delivered bytes = arrived bytes, a cut is an error and never io.EOF) (oracle: each connection's bytes are a prefix of "
-            "what was written on that very connection); the corpus runs once more under the Go race detector.",
+            "what was written on that very connection); the corpus runs once more under the Go race detector; with 1..300 sessions of one endpoint open and silent "
+            "(along every channel capacity found in the code) one more active session must deliver both of its tagged "
+            "streams - proved for handlers that hold nothing shared across the blocking conn.Read (extracted), refuted for "
+            "a bounded semaphore.",
     "note": "Partial (runtime): the interleaving of the two copy loops, TCP segmentation, websocket buffering and the "
             "message reader's chunking are schedule parameters of the model, not derived from the Go runtime; the close "
             "model's rules are a reading of the code justified rule by rule and observed end to end, not extracted; "
@@ -291,6 +294,26 @@ def impl_oracle(c):
                     "data: %s" % (p["len"], p["cap"], p["n"], p["view_ok"]))
         if p["len"] > p["cap"] and p["n"] >= 0:
             return ("tunnel-read-overrun", "a read reply of %d bytes was accepted into a %d-byte buffer" % (p["len"], p["cap"]))
+    elif s == "idle":
+        g = c["idle"]
+        if g.get("setup_err"):
+            return ("e2e-setup", "could not run the idle sessions: %s" % g["setup_err"])
+        if g.get("open_err"):
+            return ("e2e-idle-open:%s" % g["mode"], "%s mode: %s (%d probes done before)" % (g["mode"], g["open_err"], len(g["probes"])))
+        for p in g["probes"]:
+            for name, d in (("application->client", p["a2c"]), ("client->application", p["c2a"])):
+                if not d["prefix_ok"]:
+                    return ("e2e-idle-corrupt:%s" % g["mode"], "%s mode, %d open silent sessions of the endpoint, one active "
+                            "session, %s: received bytes are not a prefix of what was written (first wrong word at offset %d%s)"
+                            % (g["mode"], p["idle"], name, d["first_diff"], "; " + d["foreign"] if d.get("foreign") else ""))
+                if not d["complete"]:
+                    ok_before = [q["idle"] for q in g["probes"] if q["a2c"]["complete"] and q["c2a"]["complete"]]
+                    return ("e2e-idle-starved:%s" % g["mode"],
+                            "%s mode: with %d sessions of the endpoint open and silent, one more session whose application "
+                            "and client both write: %s, %d of %d bytes arrived within 10 s although both sides stayed open (%s); "
+                            "the same probe was complete with %s idle sessions"
+                            % (g["mode"], p["idle"], name, d["received"], d["sent"], d.get("err", ""),
+                               ok_before[-3:] if ok_before else "no smaller number of"))
     elif s == "conc":
         g = c["conc"]
         if g.get("setup_err"):
@@ -407,7 +430,10 @@ def run(ck):
         if body and body.get("skipped"):
             ck.coverage["e2e_skipped_after_timeouts"] = ck.coverage.get("e2e_skipped_after_timeouts", 0) + 1
             continue
-        if s == "conc" and body:
+        if s == "idle" and body:
+            for p in body.get("probes") or []:
+                ck.count("idle-" + body["mode"], key=("idle", body["mode"], p["idle"]), trivial=False)
+        elif s == "conc" and body:
             for cc in body.get("conns") or []:
                 ck.count("conc-" + body["mode"], key=("conc", c["i"], cc["id"]), trivial=False)
                 ck.coverage["e2e_bytes"] = ck.coverage.get("e2e_bytes", 0) + cc["c2a"]["received"] + cc["a2c"]["received"]
